@@ -607,7 +607,11 @@ def run(ctx):
         ctx.sample(dict(source=e["_src"], n_ops=len(e["rots"]), map_atoms=e["mapat"], pointgroup=e["pgsym"]))
     if not ctx.violations:  # (the demonstrations start from events that were accepted)
         selfchecks(ctx, allev)
+    ctx.extra["actions_covered"] = ("SymmetryClassTrace: Group, Tables, DoJudge fire for every event (4 states per event); "
+                                    "SymmetryCells: Add and Finish fire in every simulated behaviour; SymmetryExpect: Next per crystal")
     ctx.assumptions += [
+        "replay compares values computed by TLC from the definition (operations, permutations, smallest orbit index) "
+        "with the real results exactly; compute_all_sg_permutations is driven with TLC's operations (w/den as doubles)",
         "the real lattice is a Cholesky realisation of the integer Gram matrix, rigidly rotated at random; reported "
         "translations are rounded to the crystal's position grid (residual bound 2*symprec, ImplExact)",
         "sub-tolerance noise is 0.02*symprec per atom; the abstract crystal stays the exact one",
